@@ -66,7 +66,7 @@ def run(c):
     c.cov['evaluations'] = 3 * len(cases) + 2 * len(cidx)
     c.cov['distinct_nontrivial'] = len(nontriv)
     c.cov['rule'] = ('corpus of defect witnesses + all trees with <=3 (thorough: <=4) proper states x pairs of transitions from a menu '
-                     '(sampled deterministically to a cap) x event words <=2 over {e,f} (null datamodel) + the region family (<parallel> with three regions x 6 region shapes x 3 event descriptors, outside state before or after, primed event words; quick: every 5th chart) + seeded random charts with history, '
+                     '(sampled deterministically to a cap) x event words <=2 over {e,f} (null datamodel) + the region family (<parallel> with three regions x 6 region shapes x 3 event descriptors, outside state before or after, primed event words; quick: every 2nd chart) + seeded random charts with history, '
                      '<initial>, parallel, executable content (lua, promela, null); each run on the implementation (large engine), on the '
                      'extracted Large model and on the extracted Appendix-D specification; non-trivial = distinct (chart, history) whose run '
                      'takes at least one microstep after the initial one')
